@@ -119,6 +119,25 @@ def cases(tier, rng):
                                     nl = rng.random() < 0.8
                                     yield {"op": "read", "fmt": fmt, "header": header, "ents": bad, "i": i, "kind": kind, "k": k, "gz": gz,
                                            "lazy": lazy, "nl": nl}
+    # SEVERAL violations in one file: the first offending record must be named whatever the chunking
+    for fmt, pairs in (("fastq", [("plus", "marker"), ("marker", "plus"), ("plus", "plus"), ("marker", "marker")]),
+                       ("fasta2line", [("marker", "marker")]), ("bed6", [("strand", "nonnum"), ("nonnum", "strand"), ("tok:4:7x", "nonnum")])):
+        for n in ((2, 3, 4) if big else (2, 3)):
+            ents, header = c01.make_entries(fmt, n, rng.choice([[1, 2], [2, 5], [5, 1]]), rng)
+            for ka, kb in pairs:
+                for i in range(n):
+                    for j in range(i, n):
+                        if i == j and (ka == kb or fmt != "fastq"):
+                            continue
+                        bad = _inject(fmt, _inject(fmt, ents, i, ka), j, kb)
+                        L = len("".join(bad))
+                        bounds = [sum(len(e) for e in bad[:t + 1]) for t in range(n)]
+                        cand = sorted(set([1, 2, L, L + 1, L + 2] + bounds + [b + 1 for b in bounds]))
+                        for k in (cand if big else rng.sample(cand, min(len(cand), 5))):
+                            for gz in (False, True):
+                                for lazy in ((True, False) if big else (rng.choice([True, False]),)):
+                                    yield {"op": "read", "fmt": fmt, "header": header, "ents": bad, "i": i, "kind": "multi", "viol": [[i, ka], [j, kb]],
+                                           "k": k, "gz": gz, "lazy": lazy, "nl": rng.random() < 0.8}
     # the byte-level reader used directly, and bnp.count_entries (fixed 500000-byte chunks) on a file larger than one chunk
     for fmt, kinds in (("fastq", ["marker", "plus"]), ("fasta2line", ["marker"]), ("bed", ["ncols_more", "ncols_less"])):
         for n in (3, 5):
@@ -249,6 +268,9 @@ def oracle(c):
     if c["op"] == "custom_pair":
         return {"must_error": True, "line_lo": c["i"], "line_hi": c["i"]}
     n = LINES.get(c["fmt"], 1)
+    if c["kind"] == "multi":
+        first = min(i * n + (2 if kind == "plus" else 0) for i, kind in c["viol"])
+        return {"must_error": True, "line_lo": first, "line_hi": first}
     lo, hi = c["i"] * n, c["i"] * n + n - 1
     if c["kind"].startswith("ncols"):
         # "a different number of columns" is relative to the other lines of the same buffer: the library takes the
@@ -335,6 +357,8 @@ def model_request(c):
         return {"op": "kline_read", "n": LINES[c["fmt"]], "marker": ord("@" if c["fmt"] == "fastq" else ">"), "plus": c["fmt"] == "fastq",
                 "mode": mode, "file": data, "k": c["k"]}
     cols = [l.count("\t") + 1 for l in body.split("\n") if l != "" or True][:body.count("\n") + (0 if body.endswith("\n") else 1)]
+    if c["kind"] == "multi":
+        return {"op": "delim_read", "mode": mode, "file": data, "k": c["k"], "bad": sorted({i for i, _ in c["viol"]}), "cols": cols, "colcheck": True}
     if c["kind"] in ("nonnum", "strand") or c["kind"].startswith("tok:"):
         return {"op": "delim_read", "mode": mode, "file": data, "k": c["k"], "bad": [c["i"]], "cols": cols, "colcheck": c["fmt"] != "sam"}
     if c["k"] > len(data) + 1:      # the whole file is one buffer: the column check decides alone
@@ -357,6 +381,9 @@ def finding_key(c, got, exp):
         return "custom-header-format:" + ("after-reading-another-table-type" if c["first"] else "single") + (":yields-table" if isinstance(got, dict) and "table" in got else ":wrong-line")
     if c["op"] != "read":
         return c["op"]
+    if c["kind"] == "multi" and c["fmt"] not in LINES and isinstance(got, dict) and got.get("err") == "format" \
+            and got["line"] in [i for i, _ in c["viol"]]:
+        return "multi:delimited-cross-column:later-violation-named"
     if isinstance(got, dict) and "table" in got:
         if c["kind"].startswith("ncols"):
             return "ncols:mixed-in-one-chunk" if _chunk_mixed(c) else "ncols:chunk-local-uniform"
